@@ -1,4 +1,5 @@
 import PkgProofs.Lemmas.SpecSet
+import PkgProofs.Lemmas.SpecReadable
 /-!
 # C06 — pre-release gating and `filter()` follow the PEP 440 policy
 
@@ -9,7 +10,8 @@ input order" is literal.  The mutable `.prereleases` attribute is the state mach
 Every set theorem holds **for every iteration order** `it` of the frozenset.
 
 `CmpOk m v` ("comparing member `m` with `v` does not raise") is the only recurring hypothesis; `.prereleases`
-itself is total since C03-fix-3 (`SSet.preOk`).
+itself is total since C03-fix-3 (`SSet.preOk`).  Section 6 removes it: for sets parsed from strings (specifiers
+from `Specifier(str)`) and candidates `Version()` accepts it is a theorem of C03 (`SSet.cmpOk_of_readable`).
 -/
 namespace C06
 open Py V S SSet
@@ -451,6 +453,38 @@ theorem history_observations {α} (T : SpecSet) (h : List Ev) (it : List Member)
   have e : T' = F := by simp [T', F, history_last_write_wins]
   rw [e]
   exact ⟨rfl, rfl, rfl, rfl, rfl⟩
+
+/-! ## 6. from strings: no hypothesis left -/
+
+/-- `filter` = `contains`, for every set parsed from a string and every list of parsed candidates -/
+theorem set_filter_is_filter_of_strings {α} (s : Str) (pre : Option Bool) (T : SpecSet)
+    (hT : SSet.ofString s pre = .ok T) (hne : T.specs ≠ []) (it it' : List Member)
+    (hp : it.Perm T.specs) (hp' : it'.Perm T.specs) (p : Option Bool) (items : List (α × Ver))
+    (hitems : ∀ x ∈ items, V.WF x.2) :
+    T.filter it p items =
+      .ok ((items.filter fun x => isOkTrue (T.contains it' x.2 p false)).map (·.1)) :=
+  set_filter_is_filter T hne it it' hp hp' p items
+    (fun m hm x hx => cmpOk_of_readable (ofString_readable hT m hm) (hitems x hx))
+
+/-- the `Specifier.filter` rule, for every specifier `Specifier(str, prereleases=ov)` can produce -/
+theorem spec_filter_fallback_of_strings {α} (s : Str) (sp : Spec) (hsp : parseSpec s = some sp)
+    (ov p : Option Bool) (items : List (α × Ver)) (hitems : ∀ x ∈ items, V.WF x.2) :
+    sp.filter ov p items = .ok (
+      let acc := fun q => (items.filter fun x => isOkTrue (sp.contains ov x.2 q)).map (·.1)
+      if p = none ∧ ov = none ∧ names sp = false then
+        (if acc none = [] then acc (some true) else acc none)
+      else acc p) := by
+  apply spec_filter_fallback
+  intro x hx
+  obtain ⟨v, w, hr⟩ := C03.parse_readClause s sp hsp
+  exact cmpOk_of_readable (m := (sp, ov)) (by simp [Readable, hr]) (hitems x hx)
+
+/-- the gate as an equation, from strings: `contains` is "enabled-or-final, and every member's operator holds" -/
+theorem contains_eq_policy_of_strings (s : Str) (pre : Option Bool) (T : SpecSet) (hT : SSet.ofString s pre = .ok T)
+    (cs : Str) (c : Ver) (hc : scan cs = some c) (it : List Member) (hp : it.Perm T.specs) (p : Option Bool) :
+    T.contains it c p false =
+      .ok (if !(truthy (effective T p)) && c.isPre then false else T.specs.all fun m => mcmp m c) :=
+  contains_eq_admits p hp (fun m hm => cmpOk_of_readable (ofString_readable hT m hm) (V.scan_wf cs c hc))
 
 /-! ## non-vacuity -/
 
